@@ -73,25 +73,29 @@ theorem optimum_split (w : Nat → Nat) {a b z : Nat} {R : List Nat}
 
 end Tree
 
-/-- the tree of `treeLoop` has minimum weighted path length among all trees over the heap's
-alphabet, for the weights stored in the heap -/
+/-- for weights whose sums are exact, the tree of `treeLoop` has minimum weighted path length
+among all trees over the heap's alphabet, for the weights stored in the heap -/
 theorem treeLoop_optimal : ∀ (fuel : Nat) (heap : List (Nat × Nat)) (next : Nat) (w : Nat → Nat),
-    HeapOK heap next → fuel = heap.length → heap ≠ [] → (∀ p ∈ heap, w p.2 = p.1) →
-    ∀ T, treeLoop fuel heap next = some T →
+    HeapOK heap next → fuel = heap.length → (∀ p ∈ heap, w p.2 = p.1) →
+    ∀ T, treeLoop exactOps fuel heap next = some T →
     ∀ U : Tree, U.leaves.Perm (heap.map (·.2)) → Tree.cost w T ≤ Tree.cost w U
-  | 0, heap, _, _, _, hf, hne, _, _, _, _, _ => by
-    exact absurd (List.eq_nil_of_length_eq_zero hf.symm) hne
-  | fuel + 1, heap, next, w, hok, hf, hne, hw, T, hT, U, hU => by
-    obtain ⟨a, h1, e1⟩ := popMin_isSome hne
-    simp only [treeLoop, e1] at hT
-    cases e2 : popMin h1 with
+  | 0, heap, _, _, _, _, _, T, hT, _, _ => by simp [treeLoop] at hT
+  | fuel + 1, heap, next, w, hok, hf, hw, T, hT, U, hU => by
+    simp only [treeLoop] at hT
+    cases e1 : popMin exactOps heap with
+    | none => simp [e1] at hT
+    | some ah =>
+    obtain ⟨a, h1⟩ := ah
+    simp only [e1] at hT
+    cases e2 : popMin exactOps h1 with
     | none =>
       simp only [e2] at hT
       injection hT with hT; subst hT
       simp [Tree.cost]
     | some bh =>
       obtain ⟨b, h2⟩ := bh
-      simp only [e2, Option.map_eq_some_iff] at hT
+      have hadd : addPush exactOps a.1 b.1 h2 = .ok (a.1 + b.1) := by simp [addPush, exactOps]
+      simp only [e2, hadd, Option.map_eq_some_iff] at hT
       obtain ⟨T', hT', rfl⟩ := hT
       obtain ⟨ha, hb, hab, ha2, hb2, hl, hok'⟩ := pop2_facts hok e1 e2 (a.1 + b.1)
       have hp := pop2_perm e1 e2
@@ -111,12 +115,11 @@ theorem treeLoop_optimal : ∀ (fuel : Nat) (heap : List (Nat × Nat)) (next : N
         · have := hok.2 p (hh2 p hp')
           have hne' : p.2 ≠ next := by omega
           simp [hne', hw p (hh2 p hp')]
-      obtain ⟨T'', hT'', hleaves, _⟩ :=
-        treeLoop_spec fuel ((a.1 + b.1, next) :: h2) (next + 1) hok' (by simp; omega) (by simp)
-      rw [hT'] at hT''; injection hT'' with hT''; subst hT''
+      obtain ⟨hleaves, _⟩ :=
+        treeLoop_spec fuel ((a.1 + b.1, next) :: h2) (next + 1) hok' (by simp; omega) T' hT'
       have hopt := treeLoop_optimal fuel ((a.1 + b.1, next) :: h2) (next + 1)
         (fun x => if x = next then w a.2 + w b.2 else w x) hok'
-        (by simp; omega) (by simp) hw' T' hT'
+        (by simp; omega) hw' T' hT'
       refine Tree.optimum_split w (R := h2.map (·.2)) ?_ ?_ ?_ ?_ (by simpa using hleaves)
         (fun U' hU' => hopt U' (by simpa using hU')) U (hU.trans hpm)
       · exact hpm.nodup_iff.mp hok.1
@@ -127,10 +130,10 @@ theorem treeLoop_optimal : ∀ (fuel : Nat) (heap : List (Nat × Nat)) (next : N
         omega
       · rw [hwa, hwb]
         have hb1 : b ∈ h1 := (popMin_perm e2).mem_iff.mpr (by simp)
-        exact keyLe_weight (popMin_min e1 b hb1)
+        exact keyLe_weight (popMin_min natOrder_exact e1 b hb1)
       · intro x hx
         obtain ⟨p, hp1, rfl⟩ := List.mem_map.mp hx
         rw [hwb, hw p (hh2 p hp1)]
-        exact keyLe_weight (popMin_min e2 p hp1)
+        exact keyLe_weight (popMin_min natOrder_exact e2 p hp1)
 
 end CV.Huff
